@@ -112,9 +112,9 @@ func preferDecodeRune(m dsl.Matcher) {
 //doc:before  len(arr) <= 0
 //doc:after   len(arr) == 0
 func sloppyLen(m dsl.Matcher) {
-	m.Match(`len($_) >= 0`).Report(`$$ is always true`)
-	m.Match(`len($_) < 0`).Report(`$$ is always false`)
-	m.Match(`len($x) <= 0`).Report(`$$ can be len($x) == 0`)
+	m.Match(`$len($_) >= 0`).Where(m["len"].Text == "len" && m["len"].Object.Is(`Builtin`)).Report(`$$ is always true`)
+	m.Match(`$len($_) < 0`).Where(m["len"].Text == "len" && m["len"].Object.Is(`Builtin`)).Report(`$$ is always false`)
+	m.Match(`$len($x) <= 0`).Where(m["len"].Text == "len" && m["len"].Object.Is(`Builtin`)).Report(`$$ can be len($x) == 0`)
 }
 
 //doc:summary Detects value swapping code that are not using parallel assignment
@@ -499,8 +499,8 @@ func sprintfQuotedString(m dsl.Matcher) {
 //doc:before  xs[len(xs)]
 //doc:after   xs[len(xs)-1]
 func offBy1(m dsl.Matcher) {
-	m.Match(`$x[len($x)]`).
-		Where(m["x"].Pure && m["x"].Type.Is(`[]$_`)).
+	m.Match(`$x[$len($x)]`).
+		Where(m["x"].Pure && m["x"].Type.Is(`[]$_`) && m["len"].Text == "len" && m["len"].Object.Is(`Builtin`)).
 		Suggest(`$x[len($x)-1]`).
 		Report(`index expr always panics; maybe you wanted $x[len($x)-1]?`)
 
